@@ -1,5 +1,6 @@
 import GB.C03.ProofsPath
 import GB.C20.BridgeShape
+import GB.C03.ProofsStack
 /-
   C03 — property theorems. Theorems only; helper lemmas live in Proofs*.lean.
   `Tmpl` is the parsed template (`gwbased.Parse`, property C20), `Table` the routing table as a list of
@@ -313,6 +314,23 @@ example : routePath (routesOf exTbl) [71, 69, 84]
       [47, 97, 47, 98, 37, 50, 70, 99, 47, 100, 37, 50, 70, 101, 37, 50, 53, 52, 49, 58, 103] =
     .found 1 [([120], [98, 47, 99]), ([121], [100, 37, 50, 70, 101, 37, 52, 49])] := by decide
 end
+
+/-- `Pattern.stacksize` (`maxstack` of `NewPattern`) is only the capacity of `make([]string, 0, p.stacksize)` in
+    `MatchAndEscape` — no result depends on it — and it is a correct upper bound: for EVERY opcode program and pool
+    `NewPattern` accepts (compiled from a template or not), every component list and every initial `captured` array, the
+    op loop instrumented with the largest `stack` length it reaches (`runOpsD`, same result as `runOps`) never exceeds
+    `stacksize`: the slice never re-allocates. -/
+theorem C03_stacksize_bound (version : Nat) (ops : List Nat) (pool : List Bytes) (verb : Bytes) (P : Pattern)
+    (h : newPattern version ops pool verb = some P) (comps captured : List Bytes) :
+    (runOpsD P.pool P.tailLen P.ops comps [] captured).1 = runOps P.pool P.tailLen P.ops comps [] captured ∧
+    (runOpsD P.pool P.tailLen P.ops comps [] captured).2 ≤ P.stacksize :=
+  ⟨runOpsD_fst _ _ _ _ _ _, stacksize_bound h comps captured⟩
+
+/-- the bound is reached (so it is the least one) for `/a/{x=b/*/**}` on `/a/b/c/d/e`: stacksize 4, depth 4 -/
+example : (newPattern 1 (compile ⟨[.plain (.lit [97]), .var [120] [.lit [98], .star, .deep]], []⟩).opcodes
+      (compile ⟨[.plain (.lit [97]), .var [120] [.lit [98], .star, .deep]], []⟩).pool []).map
+      (fun P => (P.stacksize, (runOpsD P.pool P.tailLen P.ops [[97], [98], [99], [100], [101]] [] [[]]).2)) = some (4, 4) := by
+  decide
 
 /-! ## Composition with the parser (property C20's model of `gwbased.Parse`)
 
